@@ -702,6 +702,9 @@ func (h *Handler) handleFormatting(params json.RawMessage) ([]TextEdit, error) {
 	}, nil
 }
 
+// maxFormattingTabSize bounds the tabSize option of a formatting request.
+const maxFormattingTabSize = 32
+
 // formatSQL provides basic SQL formatting
 func formatSQL(sql string, opts FormattingOptions) string {
 	// Basic SQL formatter - normalize whitespace and keyword casing
@@ -712,6 +715,11 @@ func formatSQL(sql string, opts FormattingOptions) string {
 	if opts.InsertSpaces {
 		if opts.TabSize < 0 {
 			opts.TabSize = 0
+		}
+		if opts.TabSize > maxFormattingTabSize {
+			// an indentation unit is a handful of blanks; a huge value would only
+			// exhaust memory
+			opts.TabSize = maxFormattingTabSize
 		}
 		indent = strings.Repeat(" ", opts.TabSize)
 	} else {
